@@ -11,6 +11,7 @@ Definition api_call_eqb (a b : api_call) : bool :=
   | ASetMerge n1 t1 h1, ASetMerge n2 t2 h2 => cname_eqb n1 n2 && feq_bits t1 t2 && feq_bits h1 h2
   | ARefine x, ARefine y => x =? y
   | ARecluster, ARecluster => true
+  | ASaveTree, ASaveTree => true
   | ASave, ASave => true
   | _, _ => false
   end.
